@@ -37,7 +37,7 @@ PROPS["C09"] = dict(
                "inside the comparison functions. Values are sampled, the grids are exhaustive.",
     level_note="Trusts the C reference orders (<, memcmp, unsigned byte order, lexicographic loops); Tree reference "
                "uses the iteration direction observed on a two-element tree.",
-    quick=[("asan", 16, 400)],
+    quick=[("asan", 16, 400), ("plain", 8, 400)],
     thorough=[("asan", 16, 6000), ("plain", 16, 12000)],
     floors={"quick": {"int_pairs_diff_beyond_32_bits": 100, "int_pairs_diff_beyond_64_bits": 10,
                       "float_pairs_with_denormal": 10, "strings_with_high_bytes": 10,
@@ -60,7 +60,7 @@ PROPS["C02"] = dict(
                "iteration set, slot invariants) after every operation.",
     level_note="Trusts the association-list model and the harness's reading of the Table struct (taken from the "
                "tree's own Table.c by unity inclusion; derived quantities recomputed). Sequences are sampled.",
-    quick=[("asan", 16, 40)],
+    quick=[("asan", 16, 40), ("plain", 8, 40)],
     thorough=[("asan", 16, 150), ("plain", 16, 400, {"env": {"VH_BIG": "1"}})],
     floors={"quick": {"updates_of_displaced_key": 1, "wrapped_entries_observed": 1,
                       "removals_shifting_back_2_or_more": 1, "rehash_grow": 5, "rehash_shrink": 5,
@@ -86,7 +86,7 @@ PROPS["C03"] = dict(
                "height <= 2*log2(n+1). Every branch of the removal repair is required to be reached (floor).",
     level_note="Trusts the presence-array model and the validator's reading of the node layout (struct Tree comes "
                "from the tree's own Tree.c; the left/right orientation is observed, not assumed).",
-    quick=[("asan", 16, 40)],
+    quick=[("asan", 16, 40), ("plain", 8, 40)],
     thorough=[("asan", 16, 200), ("plain", 16, 500, {"env": {"VH_BIG": "1"}})],
     floors={"quick": dict([(c, 1) for c in _C03_CLASSES] + [
         ("rem_node_with_two_children", 5), ("insert_recolour_propagates", 1), ("insert_rotation", 5),
@@ -107,7 +107,7 @@ PROPS["C04"] = dict(
                "operation; dedicated sort inputs (sorted, reversed, all-equal 1500, two-valued, random).",
     level_note="Trusts the C-array model. Conventions the statement leaves open (negative push_at index, resize "
                "growth per container) are accepted as observed and pinned per container kind, see DESIGN C04.",
-    quick=[("asan", 16, 36)],
+    quick=[("asan", 16, 36), ("plain", 8, 36)],
     thorough=[("asan", 16, 500), ("plain", 16, 1500)],
     floors={"quick": {"array_growth_reallocations": 10, "array_shrink_reallocations": 10, "push_at_front": 5,
                       "push_at_last_index": 5, "pop_at_front": 5, "pop_at_last_index": 5, "sorts_with_ties": 5,
@@ -127,7 +127,7 @@ PROPS["C16"] = dict(
                "metacharacters), operands empty, equal to the target, substrings at start/middle/end, absent; every "
                "observable compared with libc on the reference after every operation, under ASan+UBSan.",
     level_note="Trusts libc (strcpy/strcat/strstr/memmove/strcmp) on the reference buffer.",
-    quick=[("asan", 16, 600)],
+    quick=[("asan", 16, 600), ("plain", 8, 600)],
     thorough=[("asan", 16, 6000), ("plain", 16, 20000)],
     floors={"quick": {"rem_at_start": 20, "rem_in_middle": 20, "rem_at_end": 20, "rem_overlapping_occurrences": 5,
                       "rem_first_of_several": 20, "rem_absent": 20, "empty_argument": 20,
@@ -152,7 +152,7 @@ PROPS["C14"] = dict(
     level_note="The reference uses the same libc printf engine per specification; what is checked is Cello's "
                "splitting, argument conversion, sink handling and position accounting.  *, L, n, lc, ls are outside "
                "Cello's one-argument-per-specification interface and are not generated.",
-    quick=[("asan", 16, 1500)],
+    quick=[("asan", 16, 1500), ("plain", 8, 1500)],
     thorough=[("asan", 16, 20000), ("plain", 16, 40000)],
     floors={"quick": {"spec_at_very_start": 100, "spec_at_very_end": 100, "adjacent_specs": 100,
                       "nonzero_start_positions": 100, "file_sink_runs": 100, "too_few_argument_runs": 100,
@@ -175,7 +175,7 @@ PROPS["C15"] = dict(
                "String and from a File (reopen or seek back); value and position oracles.",
     level_note="Float equality is 'within the printed precision' (0.5e-6 for %f, 6 significant digits for %e/%g, "
                "exact for %a). Numeric scan specifications are those valid in both printf and scanf (no precision).",
-    quick=[("asan", 16, 1500)],
+    quick=[("asan", 16, 1500), ("plain", 8, 1500)],
     thorough=[("asan", 16, 20000), ("plain", 16, 40000)],
     floors={"quick": {"fixed_roundtrips": 250, "sequences_with_separators": 100, "nonzero_start_positions": 100,
                       "file_reopen": 50, "file_seek_back": 50, "int_numeric_spec_int_range_negative": 10,
@@ -237,7 +237,7 @@ PROPS["C17"] = dict(
     quick=[("asan", 16, 30), ("plain", 8, 60)],
     thorough=[("asan", 16, 600), ("plain", 16, 2000)],
     floors={"quick": {"forced_collections": 50, "registry_walks_inside_sweep": 20, "registry_wrapped_entries": 1,
-                      "registry_entries_displaced_2_or_more": 10, "explicit_deletions": 5,
+                      "registry_entries_displaced_2_or_more": 10, "explicit_deletions": 5, "explicit_deletions_while_stopped": 5,
                       "root_holders_allocated": 5, "root_holders_deleted": 1}},
     rule="case = one heap driven through 40-200 (thorough: up to 540) random mutator operations, registry walked "
          "every 4th operation, after every forced collection and inside sweeps; distinct = hash of the operation "
@@ -286,7 +286,7 @@ PROPS["C05"] = dict(
                "contained, never twice'.",
     level_note="Trusts the ledger (token ids never reused) and the per-container models. Replacing a Box element by "
                "assignment leaves the old pointee to the collector (promptness is not decidable).",
-    quick=[("asan", 16, 150)],
+    quick=[("asan", 16, 150), ("plain", 8, 150)],
     thorough=[("asan", 16, 800), ("plain", 16, 2500)],
     floors={"quick": {"table_replace_under_collision": 20, "table_states_with_25_or_more_bindings": 20,
                       "cross_kind_assigns": 10, "same_kind_assigns": 10, "copies": 20, "clears": 20,
@@ -313,7 +313,7 @@ PROPS["C11"] = dict(
                "stop-1 down to start; Zip: shortest input; Filter: accepted elements; Map: images). Bounds below "
                "-len are not pinned to one normalisation (only [0,len] is required). The iteration order of Table "
                "and Tree is observed, not prescribed (C02/C03 own it).",
-    quick=[("asan", 16, 60)],
+    quick=[("asan", 16, 60), ("plain", 8, 60)],
     thorough=[("asan", 16, 6000), ("plain", 16, 20000)],
     floors={"quick": {"range_grid_points": 1000, "slice_grid_points": 50000, "reverse_views": 30,
                       "zips_of_unequal_lengths": 20, "compositions_of_depth_2_or_more": 100,
@@ -343,7 +343,7 @@ PROPS["C12"] = dict(
     level_note="Where the documentation names no specific exception the check accepts the set the code base uses for "
                "that fault class (e.g. wrong type: TypeError/ValueError/ClassError). Views other than Range and File "
                "faults (C20) are not in the table.",
-    quick=[("asan", 16, 40)],
+    quick=[("asan", 16, 40), ("plain", 8, 40)],
     thorough=[("asan", 16, 1500), ("plain", 16, 4000)],
     floors={"quick": {"distinct_faults_in_table": 300, "sequence_objects_faulted": 100, "map_objects_faulted": 100,
                       "string_objects_faulted": 50, "range_objects_faulted": 50, "scalar_objects_faulted": 1}},
@@ -366,7 +366,7 @@ PROPS["C10"] = dict(
                "alignments with varying neighbours in exact-size heap blocks.",
     level_note="Equality by construction is trusted (the harness writes the same value twice). Identity with "
                "MurmurHash is not required - the statement asks for a function of the value.",
-    quick=[("asan", 16, 150)],
+    quick=[("asan", 16, 150), ("plain", 8, 150)],
     thorough=[("asan", 16, 6000), ("plain", 16, 20000)],
     floors={"quick": {"blob_swaps_size_not_multiple_of_8": 1000, "blob_array_sorts": 1000, "allocation_class_groups": 500, "signed_zero_pairs": 100, "cross_kind_equal_pairs": 2000,
                       "sequence_history_groups": 500, "map_history_groups": 1000, "swaps": 2000,
@@ -389,7 +389,7 @@ PROPS["C20"] = dict(
                "exactly one fclose, and every operation on a File that is not open raises IOError.",
     level_note="Where an append stream stands before its first seek is left to the C library. Reads and writes on "
                "update streams are separated by a seek, as C requires.",
-    quick=[("asan", 16, 120)],
+    quick=[("asan", 16, 120), ("plain", 8, 120)],
     thorough=[("asan", 16, 3000), ("plain", 16, 10000)],
     floors={"quick": {"closed_file_probes": 200, "reads_past_the_end": 50, "zero_byte_writes": 20,
                       "writes_larger_than_a_stdio_buffer": 20, "seeks_from_start": 50, "seeks_from_current": 50,
@@ -414,7 +414,7 @@ PROPS["C19"] = dict(
                "embedded objects at container sizes 1,2,3,7,64 and random sizes.",
     level_note="Embedded Strings may legitimately reallocate their own buffer, so only freeing operations are "
                "refused for them; reallocating operations are refused for stack and static Strings and Tuples.",
-    quick=[("asan", 16, 30)],
+    quick=[("asan", 16, 30), ("plain", 8, 30)],
     thorough=[("asan", 16, 1500), ("plain", 16, 4000)],
     floors={"quick": {"objects_observed": 5000, "refusals_checked": 2000, "neighbour_checks": 100,
                       "heap_objects_released_once": 50, "empty_registry_thread_runs": 20}},
@@ -440,7 +440,7 @@ PROPS["C08"] = dict(
     level_note="The three lazily written fields (cache slot, memoised class pointer, header type of static types) "
                "are written with the same value by every thread; results are checked, the benign writes are not "
                "treated as violations.",
-    quick=[("asan", 16, 120)],
+    quick=[("asan", 16, 120), ("plain", 8, 120)],
     thorough=[("asan", 16, 900), ("plain", 16, 3000)],
     exhaustive=False,
     floors={"quick": {"cells_checked": 20000, "type_objects_in_matrix": 70, "casts_checked": 60, "runtime_types": 100,
